@@ -268,7 +268,7 @@ Life(t, r, c, nf, form, rel, k, adds, pi) ==
 (*          handles in use start at sixteen): handle numbers and order of  *)
 (*          use are decoupled                                              *)
 (*   mag    receiver gain 10^mag (magnitude of every reading)              *)
-(*   alev   a/b reference level 10^alev                                    *)
+(*   alev   a/b reference level 10^alev (down to 1e-9: raw receiver units) *)
 (*   noise  > 0: measurement-error model set, readings carry that noise;   *)
 (*          1 one value for all frequencies, 2 per-calibration-frequency   *)
 (*          vectors (NULL frequency vector), 3 own frequency vector; with  *)
@@ -278,7 +278,7 @@ With(life, noise, kit, mag, alev) ==
 
 KitOf(v)  == <<"use", "hi8", "rev", "pad">>[((v + (v \div 4)) % 4) + 1]
 MagOf(v)  == <<0, -4, 0, 6, -6, 3>>[((v \div 2) % 6) + 1]
-ALevOf(v) == <<0, 3, -3>>[((v \div 3) % 3) + 1]
+ALevOf(v) == <<0, 3, -9, -5>>[((v \div 3) % 4) + 1]
 
 Op(name) == [op |-> name]
 Apply(d) == [op |-> "apply", dut |-> d, mode |-> 0]
@@ -351,7 +351,7 @@ C01Rows(u) ==
 (* part of the quick table too                                             *)
 C01Dim4Rows(u) ==
     IF MaxDim >= 4 THEN {}
-    ELSE {C01Row(t, 4, 4, v) : t \in {"T8", "U8", "E12"}, v \in {4, 6}}
+    ELSE {C01Row(t, 4, 4, v) : t \in {"T8", "U8", "T16"}, v \in {4, 6}}
 
 C01Table(u) == C01Rows(u) \cup BadAllocRows(u) \cup ProtocolRows(u) \cup C01Dim4Rows(u)
 
